@@ -23,7 +23,8 @@ CONSTANTS Defaults,      \* default network list of the daemon configuration
           MaxFail,       \* failing (network, command) pairs per request
           OutFile
 
-Nets == {"neta", "netb", "netc"}
+\* netd is defined only by a file in the network configuration directory, the others in the daemon's JSON configuration
+Nets == {"neta", "netb", "netc", "netd"}
 Range(s) == {s[i] : i \in 1..Len(s)}
 IfName(i, req) == IF i = 1 THEN "eth0" ELSE IF req # "" THEN req ELSE "eth" \o ToString(i - 1)
 
@@ -34,7 +35,9 @@ PodFamily == {
     [id |-> "ab", ann |-> <<[name |-> "neta", ifreq |-> ""], [name |-> "netb", ifreq |-> ""]>>, form |-> "comma", eni |-> FALSE],
     [id |-> "ba-if", ann |-> <<[name |-> "netb", ifreq |-> ""], [name |-> "neta", ifreq |-> "net1"]>>, form |-> "comma", eni |-> TRUE],
     [id |-> "cab-json", ann |-> <<[name |-> "netc", ifreq |-> "x0"], [name |-> "neta", ifreq |-> ""], [name |-> "netb", ifreq |-> "x2"]>>, form |-> "json", eni |-> FALSE],
-    [id |-> "c-json", ann |-> <<[name |-> "netc", ifreq |-> ""]>>, form |-> "json", eni |-> FALSE] }
+    [id |-> "c-json", ann |-> <<[name |-> "netc", ifreq |-> ""]>>, form |-> "json", eni |-> FALSE],
+    [id |-> "ad", ann |-> <<[name |-> "neta", ifreq |-> ""], [name |-> "netd", ifreq |-> ""]>>, form |-> "comma", eni |-> FALSE],
+    [id |-> "d", ann |-> <<[name |-> "netd", ifreq |-> ""]>>, form |-> "comma", eni |-> FALSE] }
 
 Select(p) ==
     IF Len(p.ann) > 0 THEN [i \in 1..Len(p.ann) |-> [net |-> p.ann[i].name, ifn |-> IfName(i, p.ann[i].ifreq)]]
